@@ -44,9 +44,12 @@ type c09Case struct {
 	// PriorDiscover: DiscoverVersions requests (each listing these client versions) served before the batch, by the
 	// executor under test (Others empty) or by another default executor; how a batch is treated must not depend on them.
 	PriorDiscover [][]string `json:"prior_discover_requests,omitempty"`
-	CountOff      int        `json:"batch_count_offset"`
-	IDs           string     `json:"ids"` // none | all | some
-	PanicVal      string     `json:"panic_value,omitempty"`
+	// CancelAt: 0 = the request context stays live; -1 = it is already cancelled when HandleRequest is called; k >= 1 = it is
+	// cancelled while the handler of item k-1 runs (a client that went away): what is executed and reported does not depend on it
+	CancelAt int    `json:"cancel_context_at,omitempty"`
+	CountOff int    `json:"batch_count_offset"`
+	IDs      string `json:"ids"` // none | all | some
+	PanicVal string `json:"panic_value,omitempty"`
 }
 
 type stringer struct{ s string }
@@ -57,6 +60,8 @@ func (s stringer) String() string { return s.s }
 type callLog struct {
 	mu    sync.Mutex
 	calls []int
+	// onCall, if set, runs inside the handler of every item that reaches one (used to cancel the request context mid-batch)
+	onCall func(idx int)
 }
 
 func newExecutor(log *callLog, panicVal string) *kmipserver.BatchExecutor {
@@ -68,7 +73,11 @@ func newExecutor(log *callLog, panicVal string) *kmipserver.BatchExecutor {
 		fmt.Sscanf(parts[0], "%d", &idx)
 		log.mu.Lock()
 		log.calls = append(log.calls, idx)
+		hook := log.onCall
 		log.mu.Unlock()
+		if hook != nil {
+			hook(idx)
+		}
 		switch parts[1] {
 		case oTyped:
 			return nil, kmipserver.Errorf(kmip.ResultReasonItemNotFound, "not found")
@@ -195,7 +204,18 @@ func c09Run(c c09Case) (sig string, err error) {
 	}
 	req := buildRequest(c)
 	var resp *kmip.ResponseMessage
-	if perr := safely(func() error { resp = exec.HandleRequest(context.Background(), req); return nil }); perr != nil {
+	rctx, cancel := context.WithCancel(context.Background())
+	defer cancel()
+	if c.CancelAt < 0 {
+		cancel()
+	} else if c.CancelAt > 0 {
+		log.onCall = func(idx int) {
+			if idx == c.CancelAt-1 {
+				cancel()
+			}
+		}
+	}
+	if perr := safely(func() error { resp = exec.HandleRequest(rctx, req); return nil }); perr != nil {
 		return "handlerequest-panics", perr
 	}
 	if resp == nil {
@@ -291,7 +311,7 @@ var c09Sets = [][]string{{"1.4", "1.2"}, {"1.2"}, {"1.0", "1.3"}, {"1.1", "1.2",
 
 func TestC09Exhaustive(t *testing.T) {
 	const name = "TestC09Exhaustive"
-	rec := evid.New("C09", name, "all batches of length 0..3 over the seven item outcomes (incl. a Discover Versions item answered by the executor itself) x option {unset, Continue, Stop, Undo} x version {each of 1.0..1.4 on a default executor, unsupported 0.9/1.5/2.0/3.1, inside/outside one of six restricted sets; in a third of the cases another executor was given a restricted set just before; in a quarter one or two DiscoverVersions requests with partial version lists were served before, by this or another default executor} x batch count offset {-1,0,+1} x ids {none, all, some}, "+
+	rec := evid.New("C09", name, "all batches of length 0..3 over the seven item outcomes (incl. a Discover Versions item answered by the executor itself) x option {unset, Continue, Stop, Undo} x version {each of 1.0..1.4 on a default executor, unsupported 0.9/1.5/2.0/3.1, inside/outside one of six restricted sets; in a third of the cases another executor was given a restricted set just before; in a quarter one or two DiscoverVersions requests with partial version lists were served before, by this or another default executor} x batch count offset {-1,0,+1} x ids {none, all, some}; in two fifths of the cases the request context is already cancelled on entry or is cancelled while the 1st..3rd handler runs, "+
 		"each executed once against a fresh BatchExecutor and compared with the executable model of the KMIP batch semantics; non-trivial = >= 2 items with a failing item that is not last, or a rejected request with >= 1 item; distinct by case").Attach(t)
 	rec.Exhaustive(true)
 	if rp := evid.LoadReplay(name); rp != nil {
@@ -350,6 +370,12 @@ func TestC09Exhaustive(t *testing.T) {
 						if k%3 == 0 {
 							c.Others = [][]string{c09Sets[(k/3)%len(c09Sets)]}
 						}
+						switch k % 5 {
+						case 2:
+							c.CancelAt = -1
+						case 3:
+							c.CancelAt = 1 + k%3
+						}
 						if k%4 == 1 {
 							c.PriorDiscover = [][]string{c09Sets[(k/4)%len(c09Sets)]}
 							if k%8 == 1 {
@@ -375,7 +401,7 @@ func TestC09Exhaustive(t *testing.T) {
 
 func TestC09Random(t *testing.T) {
 	const name = "TestC09Random"
-	rec := evid.New("C09", name, "rapid: batches of 4..12 items with drawn outcomes, option, request version, supported set of this executor and of up to two other executors configured before it, up to three DiscoverVersions requests served before the batch, batch count offset, id mode and panic value; same model; "+
+	rec := evid.New("C09", name, "rapid: batches of 4..12 items with drawn outcomes, option, request version, supported set of this executor and of up to two other executors configured before it, up to three DiscoverVersions requests served before the batch, batch count offset, id mode, panic value and the moment (if any) at which the request context is cancelled; same model; "+
 		"non-trivial as in TestC09Exhaustive; distinct by case").Attach(t)
 	if rp := evid.LoadReplay(name); rp != nil {
 		var c c09Case
@@ -407,6 +433,7 @@ func TestC09Random(t *testing.T) {
 			c.Supported = rapid.SliceOfNDistinct(rapid.SampledFrom(c09Default), 1, 4, rapid.ID[string]).Draw(rt, "supported")
 		}
 		c.Others = rapid.SliceOfN(rapid.SliceOfNDistinct(rapid.SampledFrom(c09Default), 1, 5, rapid.ID[string]), 0, 2).Draw(rt, "others")
+		c.CancelAt = rapid.SampledFrom([]int{0, 0, 0, -1, 1, 2, 3, 5}).Draw(rt, "cancelat")
 		c.PriorDiscover = rapid.SliceOfN(rapid.SliceOfNDistinct(rapid.SampledFrom(c09Default), 0, 5, rapid.ID[string]), 0, 3).Draw(rt, "prior-discover")
 		c09Label(&c)
 		key, _ := json.Marshal(c)
